@@ -1,4 +1,4 @@
-Require Import OPC.gen.GenKinds OPC.Uni OPC.Names OPC.Codec OPC.Types OPC.Endpoint OPC.EndpointThm OPC.Parse OPC.ParseThm OPC.Multipart OPC.MultipartThm OPC.Client OPC.ClientThm.
+Require Import OPC.gen.GenKinds OPC.Uni OPC.Names OPC.Codec OPC.Types OPC.Endpoint OPC.EndpointThm OPC.Parse OPC.ParseThm OPC.Multipart OPC.MultipartThm OPC.Client OPC.ClientThm OPC.Cookies OPC.CookiesThm.
 From Coq Require Import NArith ZArith List Bool. Import ListNotations. Open Scope N_scope.
 
 (* every query / header / cookie argument appears under exactly its wire name in exactly its location, with its encoded value *)
@@ -119,3 +119,16 @@ Theorem C03_inconsistent_names_refuted : exists A ops, consistent A = false /\ f
 Proof. exact inconsistent_names_refuted. Qed.
 Theorem C03_user_key_clash_refuted : exists ops, own_credential_run init ops = false.
 Proof. exact user_key_clash_refuted. Qed.
+
+(* cookies of a client (Cookies.v): for EVERY sequence of constructions, derivations and uses, each request carries exactly the
+   client's own jar, overridden in turn by what was added through that very client after the variant's httpx client was built *)
+Theorem C03_cookies_sent : forall ops, cookies_run [] ops = true.
+Proof. exact cookies_sent. Qed.
+Print Assumptions C03_cookies_sent.
+Theorem C03_derived_jar : forall w i add c, nth_error w i = Some c ->
+  nth_error (fst (cstep w (CDerive i add))) (length w) = Some {| jar := dmerge (jar c) add; ksync := None; kasync := None; late_sync := []; late_async := [] |}.
+Proof. exact derived_jar. Qed.
+(* with_cookies is not pure: it also changes what the client it was called on sends from then on (faithful to the code) *)
+Theorem C03_with_cookies_changes_original_refuted : exists ops i v a b,
+  nth_error (snd (crun [] ops)) i = Some (Some a) /\ nth_error (snd (crun [] (ops ++ [CDerive 0 [([115], [50])]; CUse 0 v]))) (S (S i)) = Some (Some b) /\ a <> b.
+Proof. exact with_cookies_changes_original_refuted. Qed.
